@@ -1153,11 +1153,13 @@ func c02R3(c *an.Check, entry *ssa.Function, paramsIdx, csvIdx int) {
 				c.Unknown("C02.R3", cons, pos, detail)
 			case style == "bad":
 				c.Bad("C02.R3", cons, pos, detail)
-			case recv == "BitcoinOnChain" && style != "const1008" && style != "paramsCSV":
+			case recv == "BitcoinOnChain" && style != "const1008" && style != "paramsCSV" && style != "mixed1008":
 				// params.CSV is equivalent for Bitcoin as long as the table row (a) and the writers (c) hold
 				c.Bad("C02.R3", cons, pos, "a Bitcoin script is built with "+detail+" instead of the constant 1008")
 			case recv == "LiquidOnChain" && style != "paramsCSV":
-				c.Bad("C02.R3", cons, pos, "a Liquid script is built with "+detail+" instead of the per-swap CSV of its OpeningParams (protocol 7 uses 10080, legacy 60)")
+				// every source was interpreted and at least one is not the swap's own CSV: a validator,
+				// locator or spend builder then works with a script the swap was not negotiated with
+				c.Bad("C02.R3", cons, pos, "a Liquid script is built with "+detail+" instead of only the per-swap CSV of its OpeningParams (protocol 7 uses 10080, legacy 60): a script with another timelock — e.g. the chain default 60 — is accepted / spent for a swap that was agreed with the per-swap CSV")
 			case style != "const1008" && style != "paramsCSV":
 				c.Unknown("C02.R3", cons, pos, "a script is built outside the two back-end types with "+detail+"; cannot tell for which chain")
 			default:
@@ -1334,28 +1336,61 @@ func c02CsvStyle(w *an.World, call *ssa.Call, arg, params ssa.Value) (style, det
 	if len(ss.Leaves) == 0 {
 		return "unknown", "csv argument has no sources"
 	}
+	// selection operators (element of a slice literal, range variable, conversion)
+	// only choose among the sources; anything else computes a new value
+	computed := ""
 	for op := range ss.Ops {
-		if !strings.HasPrefix(op, "convert:") {
-			return "unknown", fmt.Sprintf("csv argument is computed (%s) from %v", op, ss.Names())
+		switch {
+		case strings.HasPrefix(op, "convert:"), op == "index", op == "range", op == "lookup", op == "slice":
+		default:
+			computed = op
 		}
 	}
-	allConst := true
-	for _, l := range ss.Leaves {
-		if l.Kind != "const" {
-			allConst = false
-		}
-	}
-	if !allConst {
-		return "unknown", fmt.Sprintf("csv argument comes from %v", ss.Names())
-	}
+	// classify every source: the CSV field of the very OpeningParams passed as
+	// first argument, a constant, or something this rule cannot interpret
+	nOwn, nConst, opaque := 0, 0, ""
 	vals := map[string]bool{}
 	for _, l := range ss.Leaves {
-		vals[l.Name] = true
+		switch {
+		case l.Kind == "const":
+			nConst++
+			vals[l.Name] = true
+		case l.Kind == "field" && (l.Name == "OpeningParams.CSV" || strings.HasSuffix(l.Name, ">OpeningParams.CSV")):
+			own := false
+			switch at := l.Val.(type) {
+			case *ssa.FieldAddr:
+				own = at.X == params
+			case *ssa.Field:
+				own = at.X == params
+			case *ssa.UnOp:
+				if fa, ok := at.X.(*ssa.FieldAddr); ok {
+					own = fa.X == params
+				}
+			}
+			if own {
+				nOwn++
+			} else {
+				opaque = "the CSV field of another OpeningParams value (" + l.String() + ")"
+			}
+		default:
+			opaque = l.String()
+		}
 	}
-	if len(vals) == 1 && vals["1008"] {
+	switch {
+	case opaque != "":
+		return "unknown", fmt.Sprintf("csv argument comes from %v; %s cannot be interpreted", ss.Names(), opaque)
+	case computed != "" && nOwn+nConst > 0:
+		return "bad", fmt.Sprintf("the csv argument is computed (%s) from %v instead of being the swap's CSV", computed, ss.Names())
+	case nConst == 0:
+		return "paramsCSV", "csv = CSV field of the OpeningParams passed as first argument (on every path)"
+	case nOwn == 0 && len(vals) == 1 && vals["1008"]:
 		return "const1008", "csv = constant 1008 on every call path"
+	case nOwn == 0:
+		return "const", fmt.Sprintf("the constant(s) %v", sortedKeys(vals))
+	case len(vals) == 1 && vals["1008"]:
+		return "mixed1008", "csv = the OpeningParams' CSV on some paths and the constant 1008 on others"
 	}
-	return "const", fmt.Sprintf("the constant(s) %v", sortedKeys(vals))
+	return "mixed", fmt.Sprintf("the OpeningParams' CSV on some paths and the constant(s) %v on others (source set %v)", sortedKeys(vals), ss.Names())
 }
 
 func c02R4(c *an.Check) {
